@@ -292,3 +292,130 @@ Print Assumptions C07_partition_read_over_storage.
 Print Assumptions C07_stream_read_over_storage.
 Print Assumptions C07_partition_read_over_scannable.
 Print Assumptions C07_stream_read_over_scannable.
+
+(** 3. the log-derived iterator model IS the real scan.  [cr_partition_commits] / [cr_stream_commits] / [cr_watermark]
+    (what the iterators yield "from a partition log": the functions the differential check runs against the real
+    node) applied to [br_log conf (abs_visible s) pid] — partition [pid] of the stored log as a [cr_log], with the
+    counts [conf] — are exactly the converted result of the real scan, commit by commit, and the bridge's watermark *)
+Theorem C07_partition_commits_are_scan : forall ops pid conf rf start limit,
+  Forall StoreSimProofs.wf_op ops -> (0 < limit)%nat ->
+  let log := br_log conf (abs_visible (run ops)) pid in
+  (exists batches, scan (run ops) (KPartition pid) start Fwd limit = Some batches /\
+     br_pcommits batches = cr_partition_commits log start) /\
+  cr_watermark rf log = br_watermark (wm_quorum rf) conf (abs_visible (run ops)) pid.
+Proof. exact run_partition_commits_are_scan. Qed.
+
+Theorem C07_stream_commits_are_scan : forall f ops x pk conf start limit,
+  Forall StoreSimProofs.wf_op ops -> br_routed f ops ->
+  (forall e, In e (all_events (abs_visible (run ops))) -> e_sid e = x -> e_pk e = pk) -> (0 < limit)%nat ->
+  exists batches, scan (run ops) (KStream x) start Fwd limit = Some batches /\
+    br_scommits batches = cr_stream_commits x (br_log conf (abs_visible (run ops)) (f pk)) start.
+Proof. exact run_stream_commits_are_scan. Qed.
+
+(** 4. the oracle abstraction loses nothing.  [partition_read_store] / [stream_read_store] are the read loops of
+    read.rs DRIVING ONE ITERATOR of Model/StoreIter.v: [iter_new], then [next_batch] with the limit the loop
+    computes from its own state before every call (min(eff - last, 50), resp. (end - last).clamp(1, 50)), the
+    per-batch / per-commit break conditions, until the iterator is exhausted.  On every [Scannable] store they
+    never fail and return exactly what the oracle-batched loops return on the converted scan — for EVERY oracle
+    and every scan batch limit — so every theorem of this file transfers to the loop over the real iterator *)
+Theorem C07_partition_read_store_is_model : forall s pid W start endo count limit orc,
+  Scannable s (KPartition pid) -> (0 < limit)%nat ->
+  exists batches, scan s (KPartition pid) start Fwd limit = Some batches /\
+    partition_read_store s pid W start endo count
+    = Some (partition_read (br_pcommits batches) orc W start endo count).
+Proof. exact partition_read_store_is_model. Qed.
+
+Theorem C07_stream_read_store_is_model : forall s sid W start endo count limit orc,
+  Scannable s (KStream sid) -> (0 < limit)%nat ->
+  exists batches, scan s (KStream sid) start Fwd limit = Some batches /\
+    stream_read_store s sid start W endo count
+    = Some (stream_read (br_scommits batches) orc W endo count).
+Proof. exact stream_read_store_is_model. Qed.
+
+(** end to end on the driven loops, for every reachable store *)
+Theorem C07_partition_read_store : forall ops pid conf q start endo count,
+  Forall StoreSimProofs.wf_op ops ->
+  let s := run ops in
+  let W := br_watermark q conf (abs_visible s) pid in
+  exists r, partition_read_store s pid W start endo count = Some r /\
+    fst r = map e_seq (firstn (N.to_nat count)
+                         (filter (br_prange W endo) (spec_scan_partition_fwd (abs_visible s) pid start))) /\
+    (forall x, In x (fst r) -> x < W) /\
+    (snd r = false ->
+     forall e, In e (spec_scan_partition_fwd (abs_visible s) pid start) -> br_prange W endo e = true ->
+               In (e_seq e) (fst r)).
+Proof. exact run_partition_read_store. Qed.
+
+Theorem C07_stream_read_store : forall f ops sid pk conf q start endo count,
+  Forall StoreSimProofs.wf_op ops -> br_routed f ops ->
+  (forall e, In e (all_events (abs_visible (run ops))) -> e_sid e = sid -> e_pk e = pk) ->
+  let s := run ops in
+  let W := br_watermark q conf (abs_visible s) (f pk) in
+  exists r, stream_read_store s sid start W endo count = Some r /\
+    fst r = map br_sev (firstn (N.to_nat count)
+                          (filter (br_srange W endo) (spec_scan_stream_fwd (abs_visible s) sid start))) /\
+    (forall x, In x (fst r) -> snd x < W) /\
+    (snd r = false ->
+     fst r = map br_sev (filter (br_srange W endo) (spec_scan_stream_fwd (abs_visible s) sid start))).
+Proof. exact run_stream_read_store. Qed.
+
+(** non-vacuity: C03's example store (two sealed segments, a live one with an unpublished append, two partitions,
+    multi-stream transactions), routed, counts with the event at sequence 6 of partition 0 below the quorum *)
+Example C07_example_bridge :
+  (Forall StoreSimProofs.wf_op br_ex_ops /\ br_routed (fun pk => pk - 1) br_ex_ops) /\
+  let s := run br_ex_ops in
+  length (sealed s) = 2%nat /\
+  br_watermark 2 br_ex_conf (abs_visible s) 0 = 6 /\ br_watermark 2 br_ex_conf (abs_visible s) 1 = 2 /\
+  br_log br_ex_conf (abs_visible s) 0
+    = [[(7, 2); (8, 2); (7, 2)]; [(7, 2)]; [(8, 2); (7, 2); (7, 1)]; [(7, 3); (8, 3)]; [(7, 3)]] /\
+  partition_read_store s 0 6 1 None 100 = Some ([1; 2; 3; 4; 5], false) /\
+  partition_read_store s 0 6 1 (Some 3) 100 = Some ([1; 2; 3], true) /\
+  partition_read_store s 0 6 0 None 2 = Some ([0; 1], true) /\
+  stream_read_store s 7 1 6 None 100 = Some ([(1, 2); (2, 3); (3, 5)], false) /\
+  stream_read_store s 7 0 6 (Some 2) 100 = Some ([(0, 0); (1, 2); (2, 3)], false) /\
+  stream_read_store s 8 0 6 None 1 = Some ([(0, 1)], true).
+Proof. exact (conj br_example_wf br_example_reads). Qed.
+
+Print Assumptions C07_partition_commits_are_scan.
+Print Assumptions C07_stream_commits_are_scan.
+Print Assumptions C07_partition_read_store_is_model.
+Print Assumptions C07_stream_read_store_is_model.
+Print Assumptions C07_partition_read_store.
+Print Assumptions C07_stream_read_store.
+
+(** 5. GetStreamVersion.  What the real REVERSE scan from u64::MAX yields (C03_reverse_groups), converted, is
+    [cr_rev_commits] of the stored transactions restricted to the stream — the shape C07_stream_version_exact
+    assumes — and the answer computed on it is the version of the LAST stored event of the stream whose sequence
+    lies below the watermark.  [U64ok]: the stream's versions fit the u64 fields (C03's hypothesis for reverse
+    scans; the iterator treats the start position u64::MAX specially). *)
+Theorem C07_stream_version_over_storage : forall ops sid W limit,
+  Forall StoreSimProofs.wf_op ops -> U64ok (run ops) (KStream sid) -> (0 < limit)%nat ->
+  exists batches, scan (run ops) (KStream sid) U64MAX Rev limit = Some batches /\
+    stream_version (br_scommits batches) W
+    = match find (fun e => e_seq e <? W) (rev (spec_scan_stream_fwd (abs_visible (run ops)) sid 0)) with
+      | Some e => Some (e_ver e)
+      | None => None
+      end.
+Proof. exact run_stream_version_over_storage. Qed.
+
+Theorem C07_stream_version_over_scannable : forall s sid W limit,
+  Scannable s (KStream sid) -> U64ok s (KStream sid) -> (0 < limit)%nat ->
+  exists batches, scan s (KStream sid) U64MAX Rev limit = Some batches /\
+    br_scommits batches
+    = cr_rev_commits (map (map br_sev) (map (filter (fun e => e_sid e =? sid)) (abs_visible s))) /\
+    stream_version (br_scommits batches) W
+    = match find (fun e => e_seq e <? W) (rev (spec_scan_stream_fwd (abs_visible s) sid 0)) with
+      | Some e => Some (e_ver e)
+      | None => None
+      end.
+Proof. exact stream_version_over_scannable. Qed.
+
+Example C07_example_bridge_stream_version :
+  match scan (run br_ex_ops) (KStream 7) U64MAX Rev 2 with
+  | Some b => stream_version (br_scommits b) 6
+  | None => None
+  end = Some 3.
+Proof. exact br_example_stream_version. Qed.
+
+Print Assumptions C07_stream_version_over_storage.
+Print Assumptions C07_stream_version_over_scannable.
